@@ -2,7 +2,7 @@
    gen/Gen_C06.v) are the hand-written InferModel functions, and the dual-bootstrap bounds of the property hold
    for them. *)
 From Coq Require Import List ZArith Reals Lra Lia.
-From RSA Require Import Prelude Vec VecR PyLib CompareProofs TransformProofs InferModel InferProofs.
+From RSA Require Import Prelude Vec VecR PyLib PySquare CompareProofs TransformProofs InferModel InferProofs.
 From RSAGen Require Import Gen_C06.
 Import ListNotations.
 Open Scope nat_scope.
@@ -168,3 +168,60 @@ Proof.
   replace (nc + d1 - nc)%R with d1 by ring. replace (nc + d2 - nc)%R with d2 by ring.
   unfold Rdiv. rewrite !Rabs_mult. apply Rmult_le_compat_r; [apply Rabs_pos|exact Hd].
 Qed.
+
+(* ---- t_tests: the matrix of two-sided p-values of all pairwise model differences, from the vector of differences on ---- *)
+Local Open Scope nat_scope.
+Local Open Scope R_scope.
+Lemma mmap_comp_R (f g : R -> R) A : np_mmap f (np_mmap g A) = np_mmap (fun x => f (g x)) A.
+Proof. unfold np_mmap. rewrite map_map. apply map_ext. intros r. apply map_map. Qed.
+
+Theorem t_tests_tie (cdf : R -> R) (diffs var : list R) :
+  Gen_C06.t_tests ROps cdf diffs var (feps ROps)
+  = np_mmap (p_two cdf) (py_squareform ROps (map2 (tstat ROps) diffs var)).
+Proof.
+  unfold Gen_C06.t_tests. cbv zeta. rewrite !mmap_comp_R, map_map, map2_map_r.
+  change (map2 (fun x y : R => ndiv ROps x (nsqrt ROps (nmax ROps y (feps ROps)))) diffs var) with (map2 (tstat ROps) diffs var).
+  unfold np_mmap. apply map_ext. intros r. apply map_ext. intros x. unfold p_two. rewrite py_abs_R. reflexivity.
+Qed.
+
+Section PairP.
+  Variable cdf : R -> R.
+  Variables diffs var : list R.
+  Let T := map2 (tstat ROps) diffs var.
+  Let n := py_sq_n (length T).
+  Let P := Gen_C06.t_tests ROps cdf diffs var (feps ROps).
+
+  Lemma t_tests_entry i j : (i < n)%nat -> (j < n)%nat ->
+    nth j (nth i P []) (p_two cdf 0) = p_two cdf (nth j (nth i (py_squareform ROps T) []) 0).
+  Proof.
+    intros Hi Hj. unfold P. rewrite t_tests_tie. fold T.
+    apply (mmap_entry ROps (p_two cdf) (py_squareform ROps T) i j).
+    - rewrite py_squareform_length. exact Hi.
+    - rewrite py_squareform_row_length by exact Hi. exact Hj.
+  Qed.
+
+  Theorem gen_t_tests_symmetric i j : (i < n)%nat -> (j < n)%nat -> nth j (nth i P []) (p_two cdf 0) = nth i (nth j P []) (p_two cdf 0).
+  Proof.
+    intros Hi Hj. rewrite !t_tests_entry by assumption. f_equal. exact (py_squareform_symmetric ROps T i j Hi Hj).
+  Qed.
+
+  Theorem gen_t_tests_diagonal i : (forall x, cdf (- x) = 1 - cdf x) -> (i < n)%nat -> nth i (nth i P []) (p_two cdf 0) = 1.
+  Proof.
+    intros Hs Hi. rewrite t_tests_entry by assumption. pose proof (py_squareform_diag ROps T i Hi) as E. cbn [n0 ROps] in E. rewrite E.
+    apply p_two_zero. exact Hs.
+  Qed.
+
+  Theorem gen_t_tests_range i j :
+    (forall x y, x <= y -> cdf x <= cdf y) -> (forall x, 0 <= cdf x <= 1) -> (forall x, cdf (- x) = 1 - cdf x) ->
+    (i < n)%nat -> (j < n)%nat -> 0 <= nth j (nth i P []) (p_two cdf 0) <= 1.
+  Proof. intros Hm Hr Hs Hi Hj. rewrite t_tests_entry by assumption. apply p_two_range; assumption. Qed.
+
+  (* entry (i,j), i < j, tests the difference stored at the position of the pair (i,j) in the vector of differences *)
+  Theorem gen_t_tests_pair i j : (i < j)%nat -> (j < n)%nat ->
+    nth j (nth i P []) (p_two cdf 0) = p_two cdf (nth (py_sq_pos n i j) T 0).
+  Proof.
+    intros Hij Hj. assert (Hi : (i < n)%nat) by lia. rewrite t_tests_entry by assumption.
+    pose proof (py_squareform_entry ROps T i j Hi Hj) as E. cbn [n0 ROps] in E. rewrite E. fold n.
+    destruct (Nat.eqb_spec i j) as [E2|E2]; [lia|]. rewrite Nat.min_l, Nat.max_r by lia. reflexivity.
+  Qed.
+End PairP.
